@@ -211,16 +211,35 @@ func Open(ctx context.Context, S3 S3Interface, cfg Config, opts OpenOptions, whe
 		// between the two lookups just as well
 		versionsToLoad = opts.OnlyVersions
 		skipUnreadable = false
-	} else {
-		versionsToLoad, err = listRoots(ctx, S3, rootPersist)
+		tree, mergedRoots, unmergeableRoots, err = mergeRoots(ctx, versionsToLoad, cfg, crdtConfig, persists, when, opts.ForceRebranch, &kvVersion, skipUnreadable)
 		if err != nil {
-			return nil, err
+			return nil, fmt.Errorf("merge: %w", err)
 		}
+	} else {
 		skipUnreadable = true
-	}
-	tree, mergedRoots, unmergeableRoots, err = mergeRoots(ctx, versionsToLoad, cfg, crdtConfig, persists, when, opts.ForceRebranch, &kvVersion, skipUnreadable)
-	if err != nil {
-		return nil, fmt.Errorf("merge: %w", err)
+		// A listed version that can no longer be read has been superseded and
+		// vacuumed since the listing, and the version that superseded it is
+		// listed by now. So when something had to be skipped, list again, and
+		// start over if the listing has changed, rather than open the table
+		// without it (an empty table, if it was the only version).
+		var listed []string
+		for attempt := 0; ; attempt++ {
+			versionsToLoad, err = listRoots(ctx, S3, rootPersist)
+			if err != nil {
+				return nil, err
+			}
+			if attempt > 0 && sameNames(versionsToLoad, listed) {
+				break
+			}
+			listed = versionsToLoad
+			tree, mergedRoots, unmergeableRoots, err = mergeRoots(ctx, versionsToLoad, cfg, crdtConfig, persists, when, opts.ForceRebranch, &kvVersion, skipUnreadable)
+			if err != nil {
+				return nil, fmt.Errorf("merge: %w", err)
+			}
+			if unmergeableRoots == 0 || attempt == 2 {
+				break
+			}
+		}
 	}
 
 	s := DB{
@@ -247,6 +266,22 @@ func Open(ctx context.Context, S3 S3Interface, cfg Config, opts OpenOptions, whe
 		})
 	}
 	return &s, nil
+}
+
+func sameNames(a, b []string) bool {
+	if len(a) != len(b) {
+		return false
+	}
+	seen := make(map[string]bool, len(a))
+	for _, n := range a {
+		seen[n] = true
+	}
+	for _, n := range b {
+		if !seen[n] {
+			return false
+		}
+	}
+	return true
 }
 
 func (spc *S3BucketInfo) fixPrefix() *S3BucketInfo {
